@@ -362,6 +362,54 @@ pub fn corpus() -> Vec<Item> {
         let spec = crate::c17::spec_of(&c, 11);
         out.push(Item { name: name.into(), bytes: spec.write_codestream_with(&jxlw::jpeg::StreamOpts { filters, ..Default::default() }), frames: 1, keyframes: 1, width: size.0 as u32, height: size.1 as u32 });
     }
+    // multi-group VarDCT frames (256x256 groups -> several TOC sections), incl. filters across the group border and 4:2:0
+    for (name, sampling, size, filters, pattern) in [("vardct-264x40-2groups-gab-epf", 0u32, (264usize, 40usize), true, 0u32), ("vardct-520x24-3groups-420", 1, (520, 24), false, 2), ("vardct-260x264-4groups", 0, (260, 264), false, 2)] {
+        let mut t = crate::explore::Tape::default();
+        let mut c = crate::c17::cfg_from(&mut t);
+        c.size = size;
+        c.pattern = pattern;
+        c.sampling = sampling;
+        let spec = crate::c17::spec_of(&c, 13);
+        out.push(Item { name: name.into(), bytes: spec.write_codestream_with(&jxlw::jpeg::StreamOpts { filters, ..Default::default() }), frames: 1, keyframes: 1, width: size.0 as u32, height: size.1 as u32 });
+    }
+    // VarDCT frame that takes its LF from a preceding LF frame (lf_level 1)
+    for (name, size, filters) in [("vardct-lfframe-40x24", (40usize, 24usize), false), ("vardct-lfframe-264x40-2groups-epf", (264, 40), true)] {
+        let mut t = crate::explore::Tape::default();
+        let mut c = crate::c17::cfg_from(&mut t);
+        c.size = size;
+        c.pattern = 0;
+        let spec = crate::c17::spec_of(&c, 17);
+        out.push(Item { name: name.into(), bytes: spec.write_codestream_with(&jxlw::jpeg::StreamOpts { filters, lf_frame: true, ..Default::default() }), frames: 2, keyframes: 1, width: size.0 as u32, height: size.1 as u32 });
+    }
+    // splines: on a VarDCT frame (with noise) and on a Modular RGB frame
+    {
+        use jxlw::patches::{write_splines, QuantSpline};
+        let mut a = QuantSpline { start: (4, 5), points: vec![(14, 9), (25, 6), (33, 17)], colour_dct: [[0; 32]; 3], sigma_dct: [0; 32] };
+        a.colour_dct[0][0] = 60;
+        a.colour_dct[1][0] = -35;
+        a.colour_dct[1][1] = 12;
+        a.colour_dct[2][0] = 90;
+        a.sigma_dct[0] = 24;
+        a.sigma_dct[2] = -3;
+        let mut b = QuantSpline { start: (30, 2), points: vec![(20, 20)], colour_dct: [[0; 32]; 3], sigma_dct: [0; 32] };
+        b.colour_dct[0][0] = -40;
+        b.colour_dct[2][3] = 25;
+        b.sigma_dct[0] = 40;
+        let dict = |ans: bool| write_splines(&[a.clone(), b.clone()], 2, &CodeOpts { use_prefix: !ans, ..Default::default() });
+        let mut t = crate::explore::Tape::default();
+        let mut c = crate::c17::cfg_from(&mut t);
+        c.size = (40, 24);
+        c.pattern = 5;
+        let spec = crate::c17::spec_of(&c, 7);
+        out.push(Item { name: "vardct-40x24-splines-noise".into(), bytes: spec.write_codestream_with(&jxlw::jpeg::StreamOpts { splines: Some(dict(false)), noise: Some([200, 100, 50, 25, 12, 6, 3, 1]), no_ycbcr: true, ..Default::default() }), frames: 1, keyframes: 1, width: 40, height: 24 });
+        let img = ImageHeader::simple(40, 24, false, 8);
+        let mut fh = FrameHeader::modular_lossless(&img);
+        fh.flags |= FLAG_SPLINES;
+        let mut spec = ModularFrameSpec::new(fh, planes(40, 24, 3, 255, 6));
+        spec.tree = Node::leaf(5);
+        spec.lf_global_prefix = Some(dict(true));
+        out.push(item("rgb-40x24-splines", &img, vec![write_modular_frame(&img, &spec).bytes], 1));
+    }
     // Modular frames with upsampling 2 / 8 (alpha upsampled alike)
     for (name, up, w, h) in [("rgba-up2-21x13", 2u32, 21u32, 13u32), ("rgba-up8-35x18", 8, 35, 18)] {
         let mut img = ImageHeader::simple(w, h, false, 8);
@@ -402,6 +450,16 @@ pub fn corpus() -> Vec<Item> {
         spec.tree = Node::leaf(5);
         spec.lf_global_prefix = Some(write_patches(&refs, 1, &CodeOpts { use_prefix: true, ..Default::default() }));
         out.push(item("rgba-24x20-patches", &img, vec![encode_frame(&img, &d0), write_modular_frame(&img, &spec).bytes], 1));
+        // the same with the alpha channel of the patched frame coded at half resolution (ec_upsampling 2)
+        let mut f2 = FrameHeader::modular_lossless(&img);
+        f2.flags |= FLAG_PATCHES;
+        f2.ec_upsampling = vec![2];
+        let mut ch2 = planes(24, 20, 3, 255, 4);
+        ch2.push(tex(12, 10, 3, 255, 8));
+        let mut spec2 = ModularFrameSpec::new(f2, ch2);
+        spec2.tree = Node::leaf(5);
+        spec2.lf_global_prefix = Some(write_patches(&refs, 1, &CodeOpts { use_prefix: true, ..Default::default() }));
+        out.push(item("rgba-24x20-patches-ecup2", &img, vec![encode_frame(&img, &d0), write_modular_frame(&img, &spec2).bytes], 1));
     }
     let _ = BitWriter::new();
     out
